@@ -63,6 +63,8 @@ def jobs(tier):
         for shape, layout in (("selfname", "flat"), ("selfdir", "flat"), ("samename2", "two"), ("samename2", "mirror")):
             out.append(("v%d.%s.%s.pre-empty.decoy-none" % (version, shape, layout), "job",
                         dict(version=version, shape=shape, P=16384, K=1, layout=layout, decoy="none", pre="empty")))
+    for version in (1, 2, 3):       # a directory torrent holding exactly one file
+        out.append(("v%d.dir1.flat.pre-empty.decoy-none" % version, "job", dict(version=version, shape="dir1", P=16384, K=2, layout="flat", decoy="none", pre="empty")))
     out.extend(rw.matrix_rows(tier, "C14"))
     return out
 
